@@ -327,8 +327,36 @@ func (e *Encoder) Finish() []byte {
 // segment.
 func (e *Encoder) SegmentLen() int { return len(e.Hist) - e.segStart }
 
-// PendingBytes is a lower bound of the compressed size of the current segment.
+// PendingBytes is the size the current segment would have if it were finished
+// now (bytes out, bytes held back for a carry, four flush bytes).
 func (e *Encoder) PendingBytes() int { return len(e.rc.out) + int(e.rc.cacheSize) + 4 }
+
+// EncSnap is a point an Encoder can be rolled back to (Snapshot / Restore).
+type EncSnap struct {
+	m                 Model
+	lit               []uint16
+	rc                rangeEnc
+	outLen, histLen   int
+	resetAt, segStart int
+}
+
+// Snapshot records the encoder state. Output and history only grow by
+// appending, so their lengths are enough.
+func (e *Encoder) Snapshot() *EncSnap {
+	return &EncSnap{m: *e.M, lit: append([]uint16(nil), e.M.lit...), rc: *e.rc,
+		outLen: len(e.rc.out), histLen: len(e.Hist), resetAt: e.ResetAt, segStart: e.segStart}
+}
+
+// Restore rolls the encoder back to a snapshot taken in the same segment.
+func (e *Encoder) Restore(s *EncSnap) {
+	out := e.rc.out[:s.outLen]
+	*e.M = s.m
+	e.M.lit = append([]uint16(nil), s.lit...)
+	*e.rc = s.rc
+	e.rc.out = out
+	e.Hist = e.Hist[:s.histLen]
+	e.ResetAt, e.segStart = s.resetAt, s.segStart
+}
 
 // AppendRaw adds uncompressed bytes to the history (LZMA2 uncompressed chunk).
 func (e *Encoder) AppendRaw(b []byte) {
